@@ -118,13 +118,24 @@ Definition ikind_of (k : type_kind) : ikind :=
   | KUnion => IK_UNION | KEnum => IK_ENUM | KInputObject => IK_INPUT_OBJECT
   end.
 
+(* the kind of the first TYPE definition indexed under the name (namedTypeKind) *)
+Fixpoint idx_kind (n : name) (idx : list (name * idx_entry)) : option type_kind :=
+  match idx with
+  | [] => None
+  | (k, IdxType tk) :: r => if bytes_eqb n k then Some tk else idx_kind n r
+  | (_, IdxOther) :: r => idx_kind n r
+  end.
+
 Fixpoint typeref (idx : list (name * idx_entry)) (t : ty) : itref :=
   match t with
   | TNamed n =>
-    match idx_lookup n idx with
-    | None => ITRef IK_SCALAR None None
-    | Some IdxOther => ITRef IK_SCALAR (Some n) None       (* zero value of __TypeKind *)
-    | Some (IdxType k) => ITRef (ikind_of k) (Some n) None
+    match idx_kind n idx with
+    | Some k => ITRef (ikind_of k) (Some n) None
+    | None =>
+      match idx_lookup n idx with
+      | Some _ => ITRef IK_SCALAR (Some n) None      (* only non-type nodes: zero value of __TypeKind *)
+      | None => ITRef IK_SCALAR None None
+      end
     end
   | TList t' => ITRef IK_LIST None (Some (typeref idx t'))
   | TNonNull t' => ITRef IK_NON_NULL None (Some (typeref idx t'))
@@ -160,6 +171,7 @@ Definition deprecation (dds : list directive_def) (ds : list directive) : bool *
   match find_dir #"deprecated" ds with
   | None => (false, None)
   | Some d => (true, match find_arg #"reason" (d_args d) with
+                     | Some VNull => default_reason dds   (* a null reason counts as absent *)
                      | Some v => value_content v          (* None here is a panic, see [dirs_panic] *)
                      | None => default_reason dds
                      end)
@@ -168,6 +180,7 @@ Definition dirs_panic (ds : list directive) : bool :=
   match find_dir #"deprecated" ds with
   | None => false
   | Some d => match find_arg #"reason" (d_args d) with
+              | Some VNull => false
               | Some v => match value_content v with None => true | Some _ => false end
               | None => false
               end
@@ -366,11 +379,6 @@ Definition import_default (d : option bytes) : cres (option value) :=
               end
   end.
 
-Definition import_input (i : iinput) : cres inputvalue_def :=
-  cbind (import_type (ii_type i)) (fun t =>
-  cbind (import_default (ii_default i)) (fun d =>
-  COk {| iv_name := ii_name i; iv_type := t; iv_default := d; iv_dirs := [] |})).
-
 Definition deprecated_directive (reason : option bytes) : directive :=
   {| d_name := #"deprecated";
      d_args := match reason with
@@ -379,6 +387,12 @@ Definition deprecated_directive (reason : option bytes) : directive :=
                end |}.
 Definition deprecated_dirs (dep : bool) (reason : option bytes) : list directive :=
   if dep then [deprecated_directive reason] else [].
+
+Definition import_input (i : iinput) : cres inputvalue_def :=
+  cbind (import_type (ii_type i)) (fun t =>
+  cbind (import_default (ii_default i)) (fun d =>
+  COk {| iv_name := ii_name i; iv_type := t; iv_default := d;
+         iv_dirs := deprecated_dirs (ii_deprecated i) (ii_reason i) |})).
 
 Definition import_field (f : ifield) : cres field_def :=
   cbind (import_type (if_type f)) (fun t =>
@@ -394,10 +408,18 @@ Definition blank (k : type_kind) (n : name) : type_def :=
   {| td_kind := k; td_name := n; td_implements := []; td_fields := []; td_members := [];
      td_enum_values := []; td_input_fields := []; td_dirs := [] |}.
 
+Definition specified_dirs (url : option bytes) : list directive :=
+  match url with
+  | Some u => [ {| d_name := #"specifiedBy"; d_args := [ (#"url", VStr u (contains_byte 10 u)) ] |} ]
+  | None => []
+  end.
+
 (* zero or one definition per FullType *)
 Definition import_full_type (t : itype) : cres (list type_def) :=
   match it_kind t with
-  | IK_SCALAR => COk [blank KScalar (it_name t)]
+  | IK_SCALAR =>
+    COk [ {| td_kind := KScalar; td_name := it_name t; td_implements := []; td_fields := []; td_members := [];
+             td_enum_values := []; td_input_fields := []; td_dirs := specified_dirs (it_specified t) |} ]
   | IK_OBJECT =>
     cbind (cmap import_field (it_fields t)) (fun fs =>
     cbind (cmap import_named (it_interfaces t)) (fun is =>
@@ -409,8 +431,9 @@ Definition import_full_type (t : itype) : cres (list type_def) :=
              td_input_fields := []; td_dirs := [] |} ]
   | IK_INTERFACE =>
     cbind (cmap import_field (it_fields t)) (fun fs =>
-    COk [ {| td_kind := KInterface; td_name := it_name t; td_implements := []; td_fields := fs; td_members := [];
-             td_enum_values := []; td_input_fields := []; td_dirs := [] |} ])
+    cbind (cmap import_named (it_interfaces t)) (fun is =>
+    COk [ {| td_kind := KInterface; td_name := it_name t; td_implements := is; td_fields := fs; td_members := [];
+             td_enum_values := []; td_input_fields := []; td_dirs := [] |} ]))
   | IK_UNION =>
     cbind (cmap import_named (it_possible t)) (fun ms =>
     COk [ {| td_kind := KUnion; td_name := it_name t; td_implements := []; td_fields := []; td_members := ms;
@@ -429,7 +452,7 @@ Definition import_locations (ls : list name) : list name :=
 Definition import_directive (d : idirective) : cres directive_def :=
   cbind (cmap import_input (id_args d)) (fun args =>
   COk {| dd_name := id_name d; dd_args := args; dd_locations := import_locations (id_locations d);
-         dd_repeatable := false |}).
+         dd_repeatable := id_repeatable d |}).
 
 Definition nonempty_name (n : name) : option name := match n with [] => None | _ => Some n end.
 
